@@ -566,6 +566,15 @@ def capacity_guard(F, rep, rule="C08.2"):
 
 # =========================================================================== C08 shard assignment
 
+def rc_rank(r, P):
+    """rank of the reverse complement of the P-letter k-mer of rank r (first letter most significant)"""
+    out = 0
+    for _ in range(P):
+        out = out * 4 + (3 - (r & 3))
+        r >>= 2
+    return out
+
+
 class ScoreOracles(LinOracles):
     def on_call(self, it, fn, args, dest_ty, term, caller):
         path = fn.get("path", "")
@@ -573,13 +582,27 @@ class ScoreOracles(LinOracles):
         tr = fn.get("trait", "")
         if tr == "Kmer" and name == "to_u64":
             k = recv(it, args[0])
+            if "rank" in info_of(k):
+                return Int(64, False, val=info_of(k)["rank"])
             return atom_int(64, "rank(%s)" % info_of(k).get("p"))
         if tr == "Mer" and name == "rc":
             k = recv(it, args[0])
+            if "rank" in info_of(k):
+                r = rc_rank(info_of(k)["rank"], self.P)
+                return Opaque("P", {"pmer"}, {"p": "#%d" % r, "rank": r})
             return Opaque("P", {"pmer"}, {"p": "rc(%s)" % info_of(k).get("p")})
+        if tr == "Kmer" and name == "from_u64" and getattr(self, "ranked", False):
+            # ranked mode: the p-mer type is scripted as the P-letter k-mers with their ranks (tables over all p-mers can be interpreted)
+            r = args[0]
+            if isinstance(r, Int) and r.is_conc() and 0 <= r.val < 4 ** self.P:
+                return Opaque("P", {"pmer"}, {"p": "#%d" % r.val, "rank": r.val})
+            raise Undecided("from_u64 of %r" % (r,))
         return NotImplemented
 
     def opaque_index(self, it, v, idx, base):
+        if "perm" in tags_of(v) and isinstance(idx, Int) and idx.is_conc() and getattr(self, "ranked", False):
+            nm = "perm[#%d]" % idx.val
+            return Ref(Cell(atom_int(64, nm), nm))
         if "perm" in tags_of(v):
             a = affs(idx)
             nm = "perm[%s]" % (a[5:-1] if a.startswith("rank(") and a.endswith(")") else "?" + a)
@@ -723,6 +746,59 @@ def msp_host_tables(F, rep, rule_score="C08.1", rule_piece="C08.2"):
                                 piece_problems.append("emitted triple %d is not (bucket of interval %d's minimizer, that piece's extensions, that piece): %r" % (i, i, t))
                     else:
                         inc.append("result of msp_sequence is %r" % (res,))
+        # ---- a host that pre-computes its scores in a table over all p-mers cannot be followed with an unknown p-mer: the p-mer type is then
+        # scripted as the 2-letter k-mers (16 ranks), the permutation stays symbolic (every outcome of the comparisons the host makes between
+        # its entries is explored), and the score of EVERY p-mer is decided
+        if inc and not problems:
+            inc2 = []
+            rows2 = 0
+            for rc in (False, True):
+                def mk3(script):
+                    h = MspHostOracles(script)
+                    h.ranked = True
+                    return h
+
+                def run3(h, rc=rc):
+                    it = Interp(F, False, h)
+                    h.it = it
+                    seq = Ref(Cell(Opaque("[u8]", {"seq"}), "seq"))
+                    perm = Ref(Cell(Opaque("[usize]", {"perm"}), "perm"))
+                    if nm == "msp_sequence":
+                        args = [Int(64, False, val=h.K), seq, Adt("std::option::Option", 1, [perm]), mkbool(rc)]
+                    else:
+                        args = [Int(64, False, val=h.K), Ref(Cell(Opaque("V", {"seq"}), "seqv")), perm, mkbool(rc)]
+                    it.call_body(body, args)
+                    if h.score is None:
+                        raise Unsupported("no score function was handed to Scanner::new")
+                    return [call_callable(it, h.score, [Ref(Cell(Opaque("P", {"pmer"}, {"p": "#%d" % r, "rank": r}), "pi"))], {"ln": None}, body, 0)
+                            for r in range(4 ** h.P)]
+                for a, out, h in explore(mk3, run3):
+                    rows2 += 1
+                    rep.evaluations += 1
+                    if isinstance(out, tuple) and out and out[0] == "inconclusive":
+                        inc2.append(out[1])
+                        break
+                    if isinstance(out, tuple) and out and out[0] == "diverge":
+                        problems.append("diverges: %s" % out[1])
+                        continue
+                    for r, sc in enumerate(out):
+                        got = affs(sc)
+                        r2 = rc_rank(r, h.P) if rc else r
+                        cands = {"perm[#%d]" % r: r2, "perm[#%d]" % r2: r}
+                        if got not in cands:
+                            problems.append("rc=%s: the score of the p-mer of rank %d (2-letter p-mers; its reverse complement has rank %d) is %s; required %s" % (
+                                str(rc).lower(), r, rc_rank(r, h.P), got, "min(perm[%d], perm[%d])" % (r, r2) if rc else "perm[%d]" % r))
+                            break
+                        other = cands[got]
+                        if r2 != r and h.truth("Le", {got: 1, "perm[#%d]" % other: -1}, 0) is not True \
+                                and h.find_model([got, "perm[#%d]" % other], lambda e, g=got, o="perm[#%d]" % other: e[g] > e[o]) is not None:
+                            problems.append("rc=true: the score of the p-mer of rank %d is %s although perm[%d] may be smaller on this path: not the minimum over both strands" % (r, got, other))
+                            break
+            if not inc2:
+                inc = []
+                rows += rows2
+            else:
+                inc = inc2
         # ---- long reads: one past every size constant the host mentions (window sizes, cut-offs).  Whatever windows the host scans,
         # every boundary-extension query must be made against the whole read, at the piece's own position
         if nm == "msp_sequence":
